@@ -313,6 +313,10 @@ def run(R):
             bad.append(q.src(c)[:40])
         R.check(not bad, "C20.DIAG-ONLY", mq, R.site(f), "%s only reads state and writes diagnostic fields" % f.name,
                 "the diagnostic helper %s has effects beyond diagnostics: %s" % (mq, ", ".join(bad)))
+    # profiling must work on any thread: the profiler's per-thread fields exist on a fresh thread
+    from .c16 import holder_role_rules
+    holder_role_rules(R, "C20.PROFILER-STATE", only=("profiler",))
+    diag_element_attrs(R, ro)
     # a failing diagnostic inside a completion path cannot skip the completion
     comp = ro.AsyncTask.methods.get("_computed")
     esc = common.Escape(R, ro)
@@ -488,3 +492,35 @@ def narrow_quick(R, ro):
                 "a clock difference in microseconds (%s) is stored into %s declared `%s` %s: the compiled build raises OverflowError once it passes 2**31 us "
                 "(36 minutes) - only with COLLECT_PERF_STATS on" % (q.src(getattr(node, "value", node))[:40], what, desc, where))
     R.units["clock_sinks"] = len(seen)
+
+
+def diag_element_attrs(R, ro):
+    """In the perf-stats helpers, attributes read on the elements of _dependencies / items exist on
+    every class the accompanying isinstance filter admits."""
+    repo = R.repo
+    fam_future = [c for c in repo.all_classes() if c.is_subclass_of(ro.FutureBase)]
+    n = 0
+    for mq, field, elem_classes in (("async_task.AsyncTask.collect_perf_stats", "self._dependencies", fam_future),
+                                    ("batching.BatchBase.dump_perf_stats", "self.items", [c for c in fam_future if c.is_subclass_of(ro.BatchItemBase)])):
+        f = repo.fn(mq)
+        for comp in [x for x in ast.walk(f.node) if isinstance(x, (ast.ListComp, ast.GeneratorExp))]:
+            g = comp.generators[0]
+            if q.src(g.iter) != field or not isinstance(g.target, ast.Name):
+                continue
+            v = g.target.id
+            admitted = list(elem_classes)
+            for cond in g.ifs:
+                k, s_, pos = q.atom_test(cond)
+                if k == "isinstance" and s_[0] == v:
+                    names = [x.strip().split(".")[-1] for x in s_[1].strip("()").split(",") if x.strip()]
+                    sel = [c for c in elem_classes if any(b.name in names for b in c.mro() if hasattr(b, "name"))]
+                    admitted = sel if pos else [c for c in elem_classes if c not in sel]
+            attrs = set(a for d, a, node in q.attr_loads(comp) if d == v)
+            for a in sorted(attrs):
+                lacking = [c.name for c in admitted if a not in c.fields() and c.find_method(a) is None]
+                n += 1
+                R.check(not lacking, "C20.DIAG-ATTR", "%s:%s.%s" % (mq, v, a), R.site(f, comp),
+                        "%s.%s exists on every element class the filter admits (%d classes)" % (v, a, len(admitted)),
+                        "%s reads %s.%s on elements of %s, but %s do(es) not have it: with COLLECT_PERF_STATS (and kept dependencies) the task fails with AttributeError"
+                        % (f.name, v, a, field, ", ".join(lacking)))
+    R.need(n >= 2, "idiom: the perf-stats helpers no longer read attributes of their dependencies/items")
